@@ -1519,7 +1519,8 @@ fn run_witnesses(or: &mut Oracle, wits: &[Wit], stream: &str, only: Option<u64>)
     for (idx, w) in wits.iter().enumerate() {
         if only.map(|c| c != idx as u64).unwrap_or(false) { continue; }
         or.count("witness");
-        let forms: Vec<(Vec<u8>, bool)> = vec![];
+        // a top-level string witness: the form is the first byte of its text
+        let forms: Vec<(Vec<u8>, bool)> = match w.exp.first() { Some(Val::Str(b)) if w.exp.len() == 1 => vec![(b.clone(), w.buf.first() == Some(&b'<'))], _ => vec![] };
         let got_text;
         let res = match w.mode {
             "seq" => {
